@@ -104,9 +104,8 @@ def h_eigh_scales(ctx):
         # sign-invariant comparison of the eigenvectors
         Qp = plain(Qp.data)
         for d in range(Dp):
-            Sf = sum(np.dot(Qf[c], Qf[d - c].T) for c in range(d + 1))
-            ctx.eq(sum(np.outer(Qf[c][:, 0], Qf[d - c][:, 0]) for c in range(d + 1)),
-                   sum(np.outer(Qp[c][:, 0], Qp[d - c][:, 0]) for c in range(d + 1)), 'projector on eigenvector 0, order %d, D\'=%d' % (d, Dp))
+            ctx.eq(sum(np.outer(Qf[c][0][:, 0], Qf[d - c][0][:, 0]) for c in range(d + 1)),
+                   sum(np.outer(Qp[c][0][:, 0], Qp[d - c][0][:, 0]) for c in range(d + 1)), 'projector on eigenvector 0, order %d, D\'=%d' % (d, Dp))
 
 
 def h_reverse(ctx, pname, D, P, zero_first=False):
